@@ -114,9 +114,13 @@ def decimal? (s : Bytes) : Option Int :=
     let v : Int := digitsVal nb.2
     some (if nb.1 then -v else v)
 
-/-- `s` contains `sub` at some offset, ignoring ASCII letter case. -/
+/-- The field contains a substring equal to the term under Unicode simple case
+folding: the folded runes of the term occur, contiguously, in the folded runes
+of the field. -/
 def containsSpec (s sub : Bytes) : Bool :=
-  (List.range (s.length + 1)).any (fun i => equalFold ((s.drop i).take sub.length) sub && decide (i + sub.length ≤ s.length))
+  let rs := foldRunes s
+  let ts := foldRunes sub
+  (List.range (rs.length + 1)).any (fun i => (rs.drop i).take ts.length == ts && decide (i + ts.length ≤ rs.length))
 
 /-- The fields a search term is looked up in: domain name, ClientID, client
 name, IP. -/
